@@ -81,20 +81,39 @@ class Sandbox:
         t = (BASE + mt) * NS
         os.utime(filename, ns=(t, t))
 
-    def write_file(self, filename, c, sz, mt=None):
-        """Create/replace a regular file with content id c (fresh inode)."""
+    def write_file(self, filename, c, sz, mt=None, link=False, through=False):
+        """Create/replace a regular file with content id c (fresh inode).
+        link: the file is created as a symbolic link to a regular file kept outside the sandbox root (for the
+        library, the model and the snapshot it is a file like any other: everything follows the link).
+        through: if the path is such a link already, its target is rewritten in place and the link is left alone."""
         if mt is None:
             mt = self.tick()
+        if through and os.path.islink(filename) and os.path.isfile(filename):
+            with open(filename, 'wb') as f:
+                f.write(self.content_bytes(c, sz))
+            self.set_mtime(filename, mt)
+            return mt
         if os.path.lexists(filename) and not os.path.isdir(filename):
             os.remove(filename)
-        with open(filename, 'wb') as f:
-            f.write(self.content_bytes(c, sz))
+        if link:
+            self.blobs = getattr(self, 'blobs', 0) + 1
+            bdir = os.path.join(self.top, 'blobs')
+            os.makedirs(bdir, exist_ok=True)
+            blob = os.path.join(bdir, 'blob%d.bin' % self.blobs)
+            with open(blob, 'wb') as f:
+                f.write(self.content_bytes(c, sz))
+            os.symlink(blob, filename)
+        else:
+            with open(filename, 'wb') as f:
+                f.write(self.content_bytes(c, sz))
         self.set_mtime(filename, mt)
         return mt
 
     # -- snapshot ---------------------------------------------------------
     def node(self, filename, st=None):
         st = st or os.lstat(filename)
+        if stat.S_ISLNK(st.st_mode) and os.path.isfile(filename):
+            st = os.stat(filename)          # a link to a regular file counts as that file
         if stat.S_ISDIR(st.st_mode):
             return {'t': 'dir'}
         if not stat.S_ISREG(st.st_mode):
@@ -186,9 +205,10 @@ class Sandbox:
         fn = self.path(step['p'])
         if do == 'write':
             self._force_dirs(os.path.dirname(fn))
-            if os.path.isdir(fn):
+            if os.path.isdir(fn) and not os.path.islink(fn):
                 shutil.rmtree(fn)
-            self.write_file(fn, step['c'], step['sz'], step.get('mt'))
+            self.write_file(fn, step['c'], step['sz'], step.get('mt'), link=bool(step.get('link')),
+                            through=bool(step.get('through')))
         elif do == 'touch':
             if os.path.isfile(fn):
                 self.set_mtime(fn, step.get('mt') or self.tick())
